@@ -251,6 +251,8 @@ def gen_scenario(r, tabs, res):
     refs = {}
     for p in range(nproc):
         pr = dict(pid=10 + p, appid=r.choice([1, 2, 7]), rank=(r.randrange(0, 4) * 2 + p if with_rank else None), threads=[], labels={})
+        if p == 1 and r.random() < 0.4:
+            pr["loom"] = "node1"        # the second process in a loom of its own
         sc.procs.append(pr)
         refs[pr["pid"]] = L.L2Ref(sc.model, ss_dup, st_body)
     # size of the MPI job: the smallest legal one (nranks = highest rank + 1, so a lone rank 0 has
@@ -375,6 +377,7 @@ def gen_scenario(r, tabs, res):
     res.dist("e2e-model:" + mname)
     res.dist("e2e-kind:" + sc.note)
     res.dist("e2e-nranks:" + getattr(sc, "nranks_class", "none"))
+    res.dist("e2e-looms:%d" % len({pr.get("loom", "node0") for pr in sc.procs}))
     return sc
 
 
